@@ -317,7 +317,7 @@ def walk(rec):
     """rec: one line of `pv sqlast` -> event list (Begin ... End)"""
     ev = [E("Begin", name=str(rec["id"]), kind=rec["outcome"], q=rec["dialect"],
             flag=rec.get("parse_error", "") == "" and rec["outcome"] == "sql",
-            n=rec.get("nstmt", 0), clause=("" if rec.get("prepare") in (None, "ok") else "prepare-failed"),
+            n=rec.get("nstmt", 0), clause=("prepare-failed" if rec.get("prepare") not in (None, "ok") else ("printed-differs" if rec.get("fmt_same") is False else "")),
             alias=rec.get("world", "closed"))]
     # base tables: those the program names (extern references of its RQ); columns known when a schema is given
     sch = rec.get("schema") or {}
